@@ -231,6 +231,18 @@ func init() {
 					if fault != 0 && j.Params["chunks"] > 1 && !th {
 						continue
 					}
+					if th {
+						// every script runs twice here (with and without hooks): three reads only for the smallest reply
+						// of every function, every cut position only for the mid-sized reply (the largest one is C07's)
+						k, q := j.Params["kind"], j.Params["q"]
+						qs := clientQs(k, th)
+						if j.Params["chunks"] == 3 && q != qs[0] {
+							continue
+						}
+						if j.Params["chunks"] == 102 && q == qs[len(qs)-1] {
+							continue
+						}
+					}
 					js = append(js, j)
 				}
 			}
@@ -248,7 +260,7 @@ func init() {
 		},
 		Bounds: map[string]string{
 			"quick":    "10 functions x 3 clients x reply sizes {min,mid,max}; complete reply in up to 2 reads (cut positions case-split, optional empty timed-out reads; for a mid-sized long reply of FC1-4/FC23 every position 0..L-1) incl. exception replies, or a case-split prefix followed by EOF / an I/O error, or the reply followed by 1 or 4 further bytes on the wire (FC3, FC5, FC17); each script is run once with recording hooks and once without hooks",
-			"thorough": "up to 3 reads; more reply sizes; every cut position also for the largest reply of FC1-4/FC23",
+			"thorough": "more reply sizes; up to 3 reads for the smallest reply of every function",
 		},
 		Outside:     []string{"more reads than the bound; cut positions outside the case-split set"},
 		Assumptions: []string{"time.After readiness controlled by the harness"},
